@@ -65,7 +65,9 @@ def body(c):
     stats = {}
     confs = ["managed+vlog", "managed"] if q else ["managed", "managed+vlog", "managed+thr+l3", "managed+zstd", "managed+inmem"]
     for conf in confs:
-        K.replay(c, sims, conf, c.seed, "sim-managed", keys=tab, collect=stats)
+        # an in-memory DB cannot be re-opened: only histories without a re-open are valid there
+        hs = sims if "inmem" not in conf else [h for h in sims if not any(s["op"] == "env" and s["what"] == "reopen" for s in h)]
+        K.replay(c, hs, conf, c.seed, "sim-managed", keys=tab, collect=stats)
     c.cov["observations_compared"] = {k: v for k, v in stats.items() if k in ("get", "iter", "scan:iter", "dump", "commit:ok")}
     c.cov["env_steps_executed"] = {k: stats.get(k, 0) for k in env}
     good = [h for h, p in zip(sims, prof) if p[0] or p[1]]
